@@ -336,21 +336,33 @@ def case_verdict(h, case):
     a, rc1, e1 = run_stream([str(h)], case["recycled"])
     b, rc2, e2 = run_stream([str(h)], case["fresh"])
     if rc1 != 0 or rc2 != 0:
-        return "CRASH " + (e1 if rc1 else e2)[-1500:], True
+        e = e1 if rc1 else e2
+        key = [l.strip() for l in e.splitlines() if "runtime error" in l or "ERROR: AddressSanitizer" in l or l.startswith("SUMMARY")][:3]
+        return "CRASH " + " | ".join(key)[:600] + "\n" + e[-1500:], True
     if not a or not b:
         return "BAD no dump", False
     return monitor([(a[-1], b[-1])])[0], False
 
 
+def bad_component(v):
+    m = re.search(r"component '([^']*)'", v)
+    return m.group(1) if m else None
+
+
 def shrink_case(h, case, want_crash):
-    """ddmin over the history part and over the program part (same program lines removed from both runs)"""
+    """ddmin over the history part; a candidate counts only if it fails in the same way (same differing component of the
+    output, holder still initialised) - otherwise removing the `init` a `reinit` needs would look like a failure"""
     s0, s1 = case["split"]
     head, hist, rest = case["recycled"][:s0], case["recycled"][s0:s1], case["recycled"][s1:]
+    v0, _ = case_verdict(h, case)
+    comp0 = bad_component(v0)
 
     def fails_hist(hh):
         c = dict(case, recycled=head + hh + rest)
         v, crashed = case_verdict(h, c)
-        return crashed if want_crash else v.startswith("BAD")
+        if want_crash:
+            return crashed
+        return v.startswith("BAD") and bad_component(v) == comp0 and not (comp0 or "").startswith("code|")
 
     if hist and fails_hist([]):
         hist = []
@@ -439,9 +451,8 @@ def run(res):
         if crashed:
             small = shrink_case(h, crash_case, True)
             v2, _ = case_verdict(h, small)
-            first = [l for l in v2.splitlines() if "runtime error" in l or "ERROR: AddressSanitizer" in l or "SUMMARY" in l][:2]
             res.violation("real code aborts under ASan/UBSan while recycling objects: %s | recycled run: %s" % (
-                " ".join(first) or v2[-300:], summarise(small["recycled"])),
+                v2.splitlines()[0][:500], summarise(small["recycled"])),
                 {"ops": small["recycled"], "ops_fresh": small["fresh"], "stderr": v2[-3000:]}, True, key="abort")
             return
         res.violation("harness protocol failure rc=%d (%d answers for %d lines) %s" % (rc, len(impl), len(stream), err[-500:]), {}, False, key="protocol")
